@@ -33,7 +33,8 @@ CFG = dict(
          "deadline expiry, peer body, peer trailer, unary call + reply, write failure} after the open, API-conformant; Rig B (real server, scripted "
          "protocol-conformant client): ALL words of length <= 5 (thorough 6) over {client body, close, reset; handler recv, send, set+send header, "
          "return ok, return error, SendMsg of a message the codec rejects (quick: words <= 4 with it)} after the open, 3 stream kinds, + unary / "
-         "undecodable metadata / bodies for unknown ids / the handler's own deadline; the RETURN WINDOW as a schedulable point (a server stats handler "
+         "undecodable metadata / bodies for unknown ids / the handler's own deadline; streams to UNREGISTERED methods / unknown services (opener + 0..2 messages + half-close / reset / late body, scripted client and the real client, "
+         "eagerly or after the answer) + probe; the RETURN WINDOW as a schedulable point (a server stats handler "
          "holds the OutTrailer event, a stream interceptor holds after the handler function: handler returned, trailer not yet handed to the writer) x "
          "{body, 2 bodies, half-close, reset, body+reset} of the client arriving there, scripted client and end to end (the real client sends into it); "
          "Rig C (real client - held wires - real server): the cancellation-at-every-prefix scenarios of C07 and the abandonment scenarios of C11 "
